@@ -294,8 +294,10 @@ uint64_t ll2c_ext_time(uint8_t* t) { (void)t; return 0; }
 uint8_t* ll2c_ext_localtime(uint8_t* t) { (void)t; return 0; }
 uint64_t ll2c_ext_strftime(uint8_t* s, uint64_t n, uint8_t* f, uint8_t* tm) { (void)f; (void)tm; if (n) s[0] = 0; return 0; }
 uint32_t ll2c_ext_pthread_mutex_init(uint8_t* m, uint8_t* a) { (void)m; (void)a; return 0; }
+#ifndef ENV_CUSTOM_PTHREAD
 uint32_t ll2c_ext_pthread_mutex_lock(uint8_t* m) { (void)m; ENV_ENGINE_ASSERT(0, "pthread lock reached"); return 0; }
 uint32_t ll2c_ext_pthread_mutex_unlock(uint8_t* m) { (void)m; return 0; }
+#endif
 uint32_t ll2c_ext_pthread_mutex_destroy(uint8_t* m) { (void)m; return 0; }
 uint32_t ll2c_ext__setjmp(uint8_t* b) { (void)b; ENV_ENGINE_ASSERT(0, "setjmp reached in a harness translated without --nlx"); return 0; }
 void ll2c_ext_longjmp(uint8_t* b, uint32_t v) { (void)b; (void)v; ENV_ENGINE_ASSERT(0, "longjmp reached in a harness translated without --nlx"); END_PATH(); }
